@@ -67,6 +67,7 @@ type c01Raw struct {
 	mid      []richMid          // keeper-level set-up steps, executed after BeginBlock and before the txs
 	evidence []abci.Misbehavior // double-sign evidence delivered with BeginBlock
 	proposer int                // index into the current validator set (0 = the old generator's behaviour)
+	delay    bool               // the history was generated (and must be replayed) with World.delay
 }
 
 func c01Generate(r *Rec, nBlocks int, withCustody bool, nAcc, nVal int) []c01Raw {
@@ -244,7 +245,7 @@ func c01Run(hist []c01Raw, nAcc, nVal int, pause time.Duration) ([]c01Obs, *Worl
 // c01RunRestart: as c01Run; the replica is restarted (new application instance on the same database) after every block
 // whose 1-based number is in restartAfter
 func c01RunRestart(hist []c01Raw, nAcc, nVal int, pause time.Duration, restartAfter map[int]bool) ([]c01Obs, *World) {
-	w := NewWorld(WorldOpts{NAcc: nAcc, NVal: nVal, SudoAccs: []int{nAcc - 1}})
+	w := NewWorld(WorldOpts{NAcc: nAcc, NVal: nVal, SudoAccs: []int{nAcc - 1}, CommitDelay: len(hist) > 0 && hist[0].delay})
 	var obs []c01Obs
 	for bi, raw := range hist {
 		if restartAfter[bi] { // bi blocks have been committed
@@ -345,7 +346,7 @@ func runC01(r *Rec) {
 			// rich histories: every module's message types; custody level 0 / 1 (single-entry maps: deterministic) / 2
 			// (multi-entry maps: the recorded map-marshal-order finding)
 			nAcc, nVal = 10, 4
-			o := RichOpts{NBlocks: nRichBlocks, NAcc: nAcc, NVal: nVal, Custody: []int{0, 1, 0, 2, 1, 0}[(h-nOld)%6], Label: fmt.Sprintf("rich-%d", h)}
+			o := RichOpts{NBlocks: nRichBlocks, NAcc: nAcc, NVal: nVal, Custody: []int{0, 1, 0, 2, 1, 0}[(h-nOld)%6], Label: fmt.Sprintf("rich-%d", h), CommitDelay: h%2 == 1}
 			withCustody = o.Custody == 2
 			hist = richGenerate(r, o)
 			label = fmt.Sprintf("rich-history/%d/custody-level=%d", h, o.Custody)
